@@ -20,7 +20,8 @@ SGN = {SIGINT: "int", SIGTSTP: "tstp"}
 TRUSTED = ["Lean 4.33 kernel", "axioms: propext, Classical.choice, Quot.sound at most (audited per theorem)",
            "hand-written LTS Dsh/Signals.lean tied to dsh.c by trace acceptance (same `step` in theorems and acceptor)",
            "harness/sched/* (scheduler, wrappers incl. sigwait/raise/exit, stub transport below the real rcmd.c), "
-           "vlib/sched.py, vlib/sigcheck.py, gcc, ASan/UBSan"]
+           "vlib/sched.py, vlib/sigcheck.py, vlib/sigphase.py, harness/sigthread_harness.c + vlib/sigthread.py (gated "
+           "transport, settable clock, kill(2)), harness/execsig_harness.c, gcc, ASan/UBSan"]
 
 
 # ---------------------------------------------------------------------------- trace in order
